@@ -55,7 +55,7 @@ class Box:
 Box.__module__ = __name__
 Box.__qualname__ = "Box"
 
-FIELD_NAMES = ["x", "y", "z", "w", "_p", "_x", "_y"]      # `_x` shares its __init__ alias with `x`
+FIELD_NAMES = ["x", "y", "z", "w", "_p", "_x", "_y", "__meta__"]      # `_x` shares its __init__ alias with `x`
 _TOKENS = [p + n for p in ("v_", "m_", "w_") for n in FIELD_NAMES + ["p", "q"]] + [f"t{i}" for i in range(8)]
 _TOK2INT = {t: (0 if t == "v_x" else 1000 + i) for i, t in enumerate(_TOKENS)}   # one falsy int
 _INT2TOK = {v: k for k, v in _TOK2INT.items()}
@@ -252,7 +252,52 @@ def nested_source(i, spec, base="object"):
     return f"class NS{i}:\n" + "".join("    " + ln + "\n" for ln in src.splitlines())
 
 
+def _decoy_chain(chain, how):
+    """an earlier definition of the same classes (same module, same qualnames, same options, same number of fields):
+    other field names (`rename`) or the same names in another order (`reverse`)"""
+    out = []
+    for c in chain:
+        fs = [dict(f) for f in c["fields"]]
+        if how == "reverse":
+            fs.reverse()
+        else:
+            for f in fs:
+                f["name"] = f["name"] + "_d" if not f["name"].endswith("__") else "__d" + f["name"][2:]
+                if f.get("alias"):
+                    f["alias"] = f["alias"] + "_d"
+                f.pop("default", None)
+                f.pop("special", None)
+        out.append(dict(c, fields=fs, decoy=None))
+    return out
+
+
+def _exercise_decoy(mod, leaf):
+    """use the earlier class once (construct, copy, pickle) while its module is importable"""
+    sys.modules[mod.__name__] = mod
+    try:
+        kw = {a.alias: 0 for a in attr.fields(leaf) if a.init and a.default is attr.NOTHING}
+        inst = leaf(**kw)
+        copy.copy(inst)
+        pickle.loads(pickle.dumps(inst, 2))
+    except BaseException:  # noqa: BLE001  -- whatever the earlier class does is not observed
+        pass
+    finally:
+        sys.modules.pop(mod.__name__, None)
+
+
 def build_chain(chain, modname, exc=False):
+    how = chain[-1].get("decoy") if chain else None
+    if how:
+        # HISTORY of definitions: the same module + qualnames were defined (and used) before with another field list
+        try:
+            dmod, dclasses = _build_chain(_decoy_chain(chain, how), modname, exc)
+            _exercise_decoy(dmod, dclasses[-1])
+        except BaseException:  # noqa: BLE001
+            pass
+    return _build_chain(chain, modname, exc)
+
+
+def _build_chain(chain, modname, exc=False):
     """create the classes of the chain by running their source inside module `modname`; returns (module, [classes]);
     `exc`: the chain is rooted at `Exception` and every attrs class is built with auto_exc=True"""
     mod = types.ModuleType(modname)
